@@ -220,6 +220,8 @@ def run(prog: Program, col: Collector, tier: str, refs: Optional[Refs] = None, c
     shapes.r_two_operand_shapes_broadcast(prog, col, refs, cat, "R06.16")
     shapes.r_ellipsis_fill(prog, col, refs, cat, "R06.17")
     shapes.r_shape_only_ops_keep_dtype(prog, col, refs, cat, "R06.19")
+    col.rule("R06.20", "a unary op whose array implementation changes the shape or the dtype is not typed by the generic (same shape, same dtype) rule", floor=30)
+    _typing_rules_exhaustive(prog, col, refs, cat)
     col.rule("R06.18", "a variable bound in one rebuilt element of a tuple of terms is tested against the elements that are copied (else it stays an undeclared input)", floor=1)
     from . import c05 as _c05
     _c05._binder_in_one_element(prog, col, refs, cat)
@@ -540,6 +542,66 @@ def _slice_bound(prog: Program, col: Collector, refs: Refs):
         col.check(not bad and bool(reach), construct, f"every definition of `{stop_a.id}` that reaches the construction is min({dtype_a.id}, ...)",
                   f"`{stop_a.id}` reaches the construction as `{norm(bad[0].value) if bad else '?'}`, not clamped to `{dtype_a.id}`: Slice(name, 5, 20, 1, 10) declares output Bint[10] "
                   "but takes the values 5..19", sm.loc(bad[0]) if bad else sm.loc(c))
+
+
+# numpy calls whose result has another shape than their (first) array argument / another dtype kind.  Frozen table: the rule knows these and
+# nothing else; an implementation that calls none of them and none of SHAPE_KEEPING is reported as unresolved, never as a violation.
+SHAPE_CHANGING = {"np.expand_dims", "np.transpose", "np.swapaxes", "np.broadcast_to", "np.diagonal", "np.argmax", "np.argmin", "np.arange", "np.zeros", "np.full", "np.eye",
+                  "np.random.randn", "np.squeeze", "np.moveaxis"}
+DTYPE_CHANGING = {"np.isnan", "np.isfinite", "np.isinf", "np.argmax", "np.argmin", "np.arange"}
+SHAPE_KEEPING = {"np.flip", "np.clip", "np.reciprocal", "np.sqrt", "np.full_like", "np.linalg.cholesky", "np.linalg.inv", "np.finfo", "np.exp", "np.log", "np.abs", "np.sign"}
+
+
+def _typing_rules_exhaustive(prog: Program, col: Collector, refs: Refs, cat: Catalogue):
+    """find_domain dispatches on the op's class; an op without a rule of its own (or of an intermediate class) is typed by the rule for
+    UnaryOp, which declares the operand's shape and dtype.  That is right for elementwise maps only."""
+    fd = [r for r in cat.registrations if r.registry == "funsor.domains.find_domain"]
+    covered = set()
+    generic = None
+    for r in fd:
+        ref = cat.op_class_ref(refs.resolve(r.pattern[0])) if r.pattern and isinstance(r.pattern[0], (ast.Name, ast.Attribute)) else None
+        if ref:
+            covered.add(ref)
+            if ref == "abs:funsor.ops.op.UnaryOp":
+                generic = r
+    if generic is None or generic.target is None:
+        col.unresolved("funsor.domains::find_domain", "no rule registered for UnaryOp", "funsor/domains.py")
+        return
+    # the generic rule is shape- and dtype-preserving: it returns Array[<operand dtype>, <operand shape>]
+    gsrc = " ".join(norm(r_.value) for r_ in ast.walk(generic.target.node) if isinstance(r_, ast.Return) and r_.value is not None)
+    if ".shape" not in gsrc or "dtype" not in gsrc:
+        col.unresolved(f"{generic.target.fq}", "the rule for UnaryOp is not of the form Array[domain.dtype, domain.shape]", generic.loc)
+        return
+    for fq, o in sorted(cat.ops.items()):
+        anc = cat.op_ancestors(fq)
+        if "funsor.ops.op.UnaryOp" not in anc:
+            continue
+        chain = ["op:" + fq] + [("op:" + a) if a in cat.ops else ("abs:" + a) for a in anc]
+        nearest = next((x for x in chain if x in covered), None)
+        if nearest != "abs:funsor.ops.op.UnaryOp":
+            continue
+        impls = [o.impl] if o.impl is not None else []
+        impls += [r.target.node for r in cat.registrations if r.target is not None and (r.registry == fq or r.registry_text.split(".")[0] == o.var) and r.module.name == o.module.name]
+        calls = {norm(c.func) for im in impls for c in ast.walk(im) if isinstance(c, ast.Call)}
+        # implementations registered as plain library functions: `transpose.register(array)(np.swapaxes)`
+        calls |= {norm(r.target_expr) for r in cat.registrations if r.target is None and r.target_expr is not None and r.registry == fq and r.module.name == o.module.name
+                  and isinstance(r.target_expr, (ast.Attribute, ast.Name))}
+        # array methods called on the operand itself: x.reshape(...), x.astype(...)
+        meth = {r_.value.func.attr for im in impls if isinstance(im, ast.FunctionDef) and im.args.args for r_ in ast.walk(im)
+                if isinstance(r_, ast.Return) and isinstance(r_.value, ast.Call) and isinstance(r_.value.func, ast.Attribute) and isinstance(r_.value.func.value, ast.Name)
+                and r_.value.func.value.id == im.args.args[0].arg}  # `return x.reshape(shape)`: the method's result IS the op's result
+        calls |= {"np." + m for m in meth & {"reshape", "transpose", "swapaxes", "squeeze", "diagonal", "argmax", "argmin", "flatten", "ravel"}}
+        construct = f"funsor.domains::find_domain::{o.name}"
+        loc = o.module.loc(o.node)
+        sc, dc = sorted(calls & (SHAPE_CHANGING | {"np.reshape", "np.flatten", "np.ravel"})), sorted(calls & DTYPE_CHANGING)
+        if sc or dc:
+            what = " and ".join(x for x in ((f"another shape ({', '.join(sc)})" if sc else ""), (f"another dtype ({', '.join(dc)})" if dc else "")) if x)
+            col.violation(construct, f"`ops.{o.name}` (class {o.class_name}) has no find_domain rule of its own and none for an intermediate class, so the generic UnaryOp rule declares the "
+                          f"operand's own shape and dtype for it; its array implementation returns {what}: the statically computed domain differs from what the op returns on arrays", loc)
+        elif o.impl_ext is not None or not [c_ for c_ in calls if c_.startswith("np.")] or {c_ for c_ in calls if c_.startswith("np.")} <= SHAPE_KEEPING:
+            col.ok(construct, f"elementwise ({o.impl_ext or ', '.join(sorted(calls))[:60] or 'no array call'}): the generic rule applies", loc)
+        else:
+            col.unresolved(construct, f"implementation calls {sorted(c_ for c_ in calls if c_.startswith('np.'))}: not in the tables of shape-keeping / shape-changing calls", loc)
 
 
 def _ground_rule_dtypes(prog: Program, col: Collector, refs: Refs, cat: Catalogue):
